@@ -176,6 +176,26 @@ fn main() {
             }
         }
     }
+    // a checkpoint stays what it was: after a rewind the workspace file is a COPY of the stored bytes - editing it in place (append,
+    // non-atomic write, a patch update) and rewinding to the same checkpoint again restores the checkpointed bytes once more
+    {
+        let root = base.join("twice"); fs::create_dir_all(&root).unwrap();
+        let ws = Workspace { root: root.clone(), checkpoints_dir: root.join(".rip").join("checkpoints") };
+        fs::create_dir_all(&ws.checkpoints_dir).unwrap();
+        fs::write(root.join("a.txt"), "one\n").unwrap();
+        if let Ok(cp) = ws.create_checkpoint("s", "l", &[root.join("a.txt")]) {
+            fs::write(root.join("a.txt"), "two\n").unwrap();
+            let r1 = ws.rewind_to_checkpoint("s", &cp.id).map(|_| ()).map_err(|e| e.to_string());
+            // in-place edit of the restored file: same inode, new bytes
+            let edited = fs::OpenOptions::new().write(true).truncate(true).open(root.join("a.txt")).and_then(|mut f| { use std::io::Write; f.write_all(b"three\n") }).is_ok();
+            let r2 = ws.rewind_to_checkpoint("s", &cp.id).map(|_| ()).map_err(|e| e.to_string());
+            let got = fs::read_to_string(root.join("a.txt")).ok();
+            if r1.is_ok() && edited && r2.is_ok() && got.as_deref() != Some("one\n") {
+                println!("WITNESS {{\"function\": \"Workspace::rewind_to_checkpoint\", \"history\": \"checkpoint a.txt=one; write two; rewind; edit the restored file in place to three; rewind to the same checkpoint again\", \"after_second_rewind\": {:?}, \"at_checkpoint\": \"one\\n\", \"problem\": \"the second rewind to the same checkpoint does not restore the checkpointed bytes (the restored file shared storage with the checkpoint's copy)\"}}", got);
+                let _ = fs::remove_dir_all(&base); return;
+            }
+        }
+    }
     // a request that is refused because of its LAST path leaves nothing behind either (the paths before it were not copied yet)
     {
         let root = base.join("refused_late"); fs::create_dir_all(root.join("src")).unwrap();
